@@ -1,5 +1,8 @@
 // Shared semantic vocabulary (DESIGN.md 2.4).  Hand-written mirror types of the repository's
 // DomainId / Predicate / PropositionalConjunction / Inconsistency (field-for-field), plus their meaning.
+// Layout: types at the root (derive(Structural) must not sit in a sub-module in this Verus), meaning in
+// `vocab_sem`, broadcast lemmas / axioms in their own modules (a module's single `broadcast use` may not
+// depend on lemmas whose bodies depend on that module).
 pub type Asg = spec_fn(int) -> int;    // a total assignment: domain id |-> value
 pub type Live = spec_fn(Asg) -> bool;  // the assignments compatible with the current domains
 pub type Model = spec_fn(Asg) -> bool; // the meaning of a constraint / of everything posted so far
@@ -7,9 +10,6 @@ pub type Model = spec_fn(Asg) -> bool; // the meaning of a constraint / of every
 #[derive(Clone, Copy, PartialEq, Eq, Structural)]
 pub struct DomainId {
     pub id: u32,
-}
-impl DomainId {
-    pub open spec fn val(self, a: Asg) -> int { a(self.id as int) }
 }
 
 #[derive(Clone, Copy, PartialEq, Eq, Structural)]
@@ -32,38 +32,8 @@ pub enum Predicate {
     },
 }
 
-pub open spec fn pred_holds(p: Predicate, a: Asg) -> bool {
-    match p {
-        Predicate::LowerBound { domain_id, lower_bound } => a(domain_id.id as int) >= lower_bound,
-        Predicate::UpperBound { domain_id, upper_bound } => a(domain_id.id as int) <= upper_bound,
-        Predicate::NotEqual { domain_id, not_equal_constant } => a(domain_id.id as int) != not_equal_constant,
-        Predicate::Equal { domain_id, equality_constant } => a(domain_id.id as int) == equality_constant,
-    }
-}
-
-pub open spec fn seq_holds(s: Seq<Predicate>, a: Asg) -> bool {
-    forall|i: int| 0 <= i < s.len() ==> pred_holds(#[trigger] s[i], a)
-}
-pub open spec fn seq_some_holds(s: Seq<Predicate>, a: Asg) -> bool {
-    exists|i: int| 0 <= i < s.len() && pred_holds(#[trigger] s[i], a)
-}
-
 pub struct PropositionalConjunction {
     pub predicates_in_conjunction: Vec<Predicate>,
-}
-
-pub open spec fn conj_holds(c: PropositionalConjunction, a: Asg) -> bool {
-    seq_holds(c.predicates_in_conjunction@, a)
-}
-
-pub open spec fn entails(live: Live, c: PropositionalConjunction) -> bool {
-    forall|a: Asg| #[trigger] live(a) ==> conj_holds(c, a)
-}
-
-impl PropositionalConjunction {
-    pub fn from(v: Vec<Predicate>) -> (r: Self)
-        ensures r.predicates_in_conjunction@ == v@
-    { PropositionalConjunction { predicates_in_conjunction: v } }
 }
 
 pub struct EmptyDomain;
@@ -74,6 +44,47 @@ pub enum Inconsistency {
     Conflict(PropositionalConjunction),
 }
 pub type PropagationStatusCP = Result<(), Inconsistency>;
+
+// The abstract solver store: which total assignments are still possible.
+pub struct Assignments {
+    pub live: Ghost<Live>,
+    // abstract identity of the concrete store (domains, trail): reads are functions of it
+    pub state: Ghost<int>,
+}
+
+pub mod vocab_sem { use vstd::prelude::*; use super::{Asg, Live, DomainId, Predicate, PropositionalConjunction};
+pub open spec fn pred_holds(p: Predicate, a: Asg) -> bool {
+    match p {
+        Predicate::LowerBound { domain_id, lower_bound } => a(domain_id.id as int) >= lower_bound,
+        Predicate::UpperBound { domain_id, upper_bound } => a(domain_id.id as int) <= upper_bound,
+        Predicate::NotEqual { domain_id, not_equal_constant } => a(domain_id.id as int) != not_equal_constant,
+        Predicate::Equal { domain_id, equality_constant } => a(domain_id.id as int) == equality_constant,
+    }
+}
+pub open spec fn seq_holds(s: Seq<Predicate>, a: Asg) -> bool {
+    forall|i: int| 0 <= i < s.len() ==> pred_holds(#[trigger] s[i], a)
+}
+pub open spec fn seq_some_holds(s: Seq<Predicate>, a: Asg) -> bool {
+    exists|i: int| 0 <= i < s.len() && pred_holds(#[trigger] s[i], a)
+}
+pub open spec fn conj_holds(c: PropositionalConjunction, a: Asg) -> bool {
+    seq_holds(c.predicates_in_conjunction@, a)
+}
+pub open spec fn entails(live: Live, c: PropositionalConjunction) -> bool {
+    forall|a: Asg| #[trigger] live(a) ==> conj_holds(c, a)
+}
+pub open spec fn live_empty(l: Live) -> bool { forall|a: Asg| !#[trigger] l(a) }
+}
+pub use vocab_sem::*;
+
+impl DomainId {
+    pub open spec fn val(self, a: Asg) -> int { a(self.id as int) }
+}
+impl PropositionalConjunction {
+    pub fn from(v: Vec<Predicate>) -> (r: Self)
+        ensures r.predicates_in_conjunction@ == v@
+    { PropositionalConjunction { predicates_in_conjunction: v } }
+}
 
 impl vstd::std_specs::convert::FromSpecImpl<EmptyDomain> for Inconsistency {
     open spec fn obeys_from_spec() -> bool { true }
@@ -90,20 +101,31 @@ impl From<PropositionalConjunction> for Inconsistency {
     fn from(e: PropositionalConjunction) -> (r: Self) { Inconsistency::Conflict(e) }
 }
 
-// The abstract solver store: which total assignments are still possible.
-pub struct Assignments {
-    pub live: Ghost<Live>,
-    // abstract identity of the concrete store (domains, trail): reads are functions of it
-    pub state: Ghost<int>,
-}
-pub open spec fn live_empty(l: Live) -> bool { forall|a: Asg| !#[trigger] l(a) }
-
 // `?` on a Result<_, EmptyDomain> inside a function returning PropagationStatusCP converts the error with
 // `From::from` (Rust semantics).  vstd models that conversion by the uninterpreted `spec_from`; this axiom
 // links it to the `From<EmptyDomain> for Inconsistency` impl above.  (trusted: language semantics of `?`)
-pub mod conv_axioms { use super::*;
+pub mod conv_axioms { use vstd::prelude::*; use super::{EmptyDomain, Inconsistency};
 #[verifier::external_body]
 pub broadcast proof fn axiom_from_empty_domain(e: EmptyDomain, r: Inconsistency)
     ensures #[trigger] vstd::std_specs::control_flow::spec_from::<Inconsistency, EmptyDomain>(e, r) ==> r == Inconsistency::EmptyDomain
 {}
+}
+
+pub mod seq_lemmas { use vstd::prelude::*; use super::{Asg, Predicate}; use super::vocab_sem::*;
+// a conjunction extended by one predicate
+pub broadcast proof fn lemma_seq_holds_push(s: Seq<Predicate>, p: Predicate, a: Asg)
+    ensures #[trigger] seq_holds(s.push(p), a) <==> (seq_holds(s, a) && pred_holds(p, a))
+{
+    if seq_holds(s, a) && pred_holds(p, a) {
+        assert forall|i: int| 0 <= i < s.push(p).len() implies pred_holds(#[trigger] s.push(p)[i], a) by {
+            if i < s.len() { assert(s.push(p)[i] == s[i]); }
+        }
+    }
+    if seq_holds(s.push(p), a) {
+        assert(pred_holds(s.push(p)[s.len() as int], a));
+        assert forall|i: int| 0 <= i < s.len() implies pred_holds(#[trigger] s[i], a) by {
+            assert(s.push(p)[i] == s[i]);
+        }
+    }
+}
 }
